@@ -36,7 +36,7 @@ def edtFrame (d : Nat) : WFrame := ⟨16, 0xC100 + d, false, 0⟩
 inductive Msg | echo | answer | confirm | fail
   deriving DecidableEq, Repr
 
-inductive Err | comm | timeout | io | cancelled | boom | assertion | oserror
+inductive Err | comm | timeout | io | cancelled | boom | assertion | oserror | unsupported
   deriving DecidableEq, Repr
 
 inductive Act
@@ -54,11 +54,13 @@ inductive Act
   | sleep                     -- sequences.sleep
   | resume                    -- seq.send(response): the generator runs to its next yield (may raise)
   | close                     -- seq.close()
+  | refuse                    -- HID `_send_raw`: `raise UnsupportedFrameTypeError` before anything else happens
+                              -- (a frame length the gateway cannot carry); never completes normally
   deriving DecidableEq, Repr
 
 /-- actions during which an exception can surface or a cancellation can land -/
 def Act.canRaise : Act → Bool
-  | .acq | .iacq | .connWait | .connCheck | .write _ | .await _ _ | .poll | .sleep | .resume => true
+  | .acq | .iacq | .connWait | .connCheck | .write _ | .await _ _ | .poll | .sleep | .resume | .refuse => true
   | _ => false
 
 /-- actions at which `CommunicationError` arises (inside the HID send loop) -/
@@ -177,6 +179,7 @@ def actStep (s : St) (t : Tid) : Option St :=
       | .sleep => some adv
       | .resume => some adv
       | .close => some adv
+      | .refuse => none                    -- the only way past a refusal is the exception
   | none => none
 
 /-- the next action of task `t` raises `e` (`cancelled` = the task is cancelled while blocked
